@@ -199,6 +199,18 @@ PROPS = {
           '132496): nil iff equal, and the script (drop "- ", keep plain, insert "+ ") transforms the first list into the second; exhaustive. '
           'Non-trivial: every case that completed.',
           nbatch=(8, 16), must_observe=['arg_lists_roundtripped', 'e2e_invocations', 'e2e_with_result_argument', 'unencodable_rejected', 'location_list_pairs_diffed']),
+ 'C02': P('fault_enumeration',
+          'cases = (program of the fault suite {map-only, reduce, cogroup, fold, two-stage shuffle, reused result}, kill plan). Kill plans: none; one '
+          'kill at (RPC method in {Worker.Compile, Run, Stat, Read, FuncLocations}, k-th call of that method, before forwarding | after the reply was '
+          'received and before it is handed back) of the machine addressed, for every ordinal up to a per-method bound taken from failure-free traces '
+          '(thorough; quick: first/middle/last ordinal); a kill of a random machine after the k-th Worker.Run; seeded pairs of kills (12 / 500). Read '
+          'ordinals beyond those of the run hit the final scan. Every case runs in a fresh session on a testsystem (2 procs per machine, keepalive '
+          '50/100 ms, fast bounded read-retry policy) with machine combiners off; kills are performed by an RPC interposer around the testsystem\'s '
+          'HTTP client. Oracle: Run+scan succeed with exactly the reference rows, or an error is reported; after a single kill an error from Run must '
+          'be the documented give-up; a run that neither returns within 150 s nor shows RPC activity for 100 s is a hang (else inconclusive). '
+          'Non-trivial: a machine was actually killed.',
+          nbatch=(16, 16), timeout=(1200, 3400),
+          must_observe=['machines_killed', 'recoveries', 'runs_correct']),
 }
 
 META = {
@@ -311,4 +323,11 @@ META = {
     note='Interface-held pointer types are registered with gob as pointers only (gob names a type after its base type, so T and *T cannot both be '
          'registered); nil vs empty slices/maps are not distinguished (gob semantics).',
     technique='round-trip and end-to-end runtime monitoring; exhaustive enumeration for the diff'),
+ 'C02': dict(
+    text='Fault enumeration over RPC boundaries: an interposer kills the addressed (or a random) machine at chosen call ordinals of real runs; '
+         'outcome and rows are compared with a failure-free reference.',
+    note='Mid-stream kills inside a Worker.Read body are not injected (before/after the call are). Keepalive timing inside bigmachine decides whether '
+         'a loss is noticed before the five fast resubmissions are used up: give-up errors are counted, not flagged. Machine-combiner sessions are '
+         'excluded by the property.',
+    technique='crash-point fault injection at the RPC boundary with a reference-rows oracle and a bounded-progress (stall) rule'),
 }
